@@ -176,3 +176,35 @@ Theorem C06_moment_linear_in_force_scale :
                                      (fun i j k => a * ms_F s i j k)) ss) cg d = a * moment_M ss cg d.
 Proof. exact M_force_scaling. Qed.
 Print Assumptions C06_moment_linear_in_force_scale.
+
+(* ---- uniform scaling of all lengths through the whole VLMStates wiring of one surface (Real/ChainScaling.v) ----
+   chain_guard: every segment and wake leg of every panel, seen from every collocation point, stays on the same side of the
+   kernel's absolute tolerance at both scales (C06_absolute_tolerance_breaks_scaling shows why that cannot be dropped).
+   Then the influence matrix scales with 1/k, normals and right-hand side are unchanged, the circulations scale with k;
+   symmetric or not, left or right half, any sizes *)
+From OAS Require Import ChainScaling.
+Theorem C06_assembled_system_length_scaling :
+  forall (npx npy : nat) (sym left : bool) (k : R), 0 < k ->
+  forall alpha beta v (m : nat -> nat -> nat -> R) (G : nat -> R),
+    chain_guard npx npy sym left k alpha m ->
+    (forall p q, (p < npx * npy)%nat -> (q < npx * npy)%nat ->
+       chain_aic npx npy sym left alpha (scaled k m) p q = chain_aic npx npy sym left alpha m p q / k) /\
+    (forall p, chain_rhs npy alpha beta v (scaled k m) p = chain_rhs npy alpha beta v m p) /\
+    (forall p, (p < npx * npy)%nat -> chain_residual npx npy sym left alpha beta v (scaled k m) (fun q => k * G q) p
+               = chain_residual npx npy sym left alpha beta v m G p).
+Proof. exact chain_length_scaling. Qed.
+Print Assumptions C06_assembled_system_length_scaling.
+
+Theorem C06_circulations_scale_with_length :
+  forall (npx npy : nat) (sym left : bool) (k : R), 0 < k ->
+  forall alpha beta v (m : nat -> nat -> nat -> R) (G : nat -> R),
+    chain_guard npx npy sym left k alpha m ->
+    (forall p, (p < npx * npy)%nat -> chain_residual npx npy sym left alpha beta v m G p = 0) ->
+    forall p, (p < npx * npy)%nat -> chain_residual npx npy sym left alpha beta v (scaled k m) (fun q => k * G q) p = 0.
+Proof. exact chain_solution_scales_with_length. Qed.
+Print Assumptions C06_circulations_scale_with_length.
+
+(* non-vacuity: the guard holds for the unit one-panel wing at alpha = 0, scaled by 2 *)
+Theorem C06_length_scaling_guard_is_satisfiable : chain_guard 1 1 false true 2 0 (SignPin.rect 1 1).
+Proof. exact chain_guard_holds_somewhere. Qed.
+Print Assumptions C06_length_scaling_guard_is_satisfiable.
